@@ -37,10 +37,11 @@ class RichDB(mm.GenDB):
             st.insert(3 + len(self.vars), ('a', 'sigma-is-symbol', ['#Symbol', 'sigma']))
         if self.with_dv:
             # element variables, a top-level $d, an axiom with its own $d in a nested block
-            st[0] = ('c', st[0][1] + ['#ElementVariable', '\\forall'])
+            tc = self.elvar_typecode = rng.choice(('#ElementVariable', '#ElementVariable', 'setvar'))
+            st[0] = ('c', st[0][1] + [tc, '\\forall'])
             st.insert(2, ('v', ['x', 'y']))
-            st.append(('f', 'x-is-elvar', '#ElementVariable', 'x'))
-            st.append(('f', 'y-is-elvar', '#ElementVariable', 'y'))
+            st.append(('f', 'x-is-elvar', tc, 'x'))
+            st.append(('f', 'y-is-elvar', tc, 'y'))
             st.append(('d', ['x', 'y']))
             st.append(('a', 'forall-is-pattern', ['#Pattern', '(', '\\forall', 'x', self.vars[0], ')']))
             st.append(('block', [('d', ['x', self.vars[0]]),
